@@ -320,12 +320,10 @@ pub fn establish_level(seed: u64, tier: Tier) {
             report_unbound("EstablishProof-statement", "balances", r, m);
         }
         let base = b"establish context".to_vec();
-        for p in [0usize, 1, base.len() - 1] {
-            let mut c2 = base.clone();
-            c2[p] ^= 1;
+        for (p, (what, c2)) in context_variants(&base, &[0, 1, base.len() - 1]).into_iter().enumerate() {
             let ctx2 = Context::new(&c2);
             let d = init(&format!("ctx{}", p), &w.merchant, &cid_a, 10, 1000, &ctx2, &mut rng);
-            let (r, m) = eng::satisfiable(&format!("C12 establish statement: context differing in byte {} gives a different challenge", p), "REFUTE", &eng::axioms(), &F::BlobEq(d0, d));
+            let (r, m) = eng::satisfiable(&format!("C12 establish statement: {} gives a different challenge", what), "REFUTE", &eng::axioms(), &F::BlobEq(d0, d));
             report_unbound("EstablishProof-statement", "context", r, m);
         }
         let nk = n_config_atoms(&w.merchant, "key");
@@ -394,12 +392,10 @@ pub fn pay_level(seed: u64, tier: Tier) {
         let _ = d;
     }
     let base = b"pay context".to_vec();
-    for p in [0usize, 1, base.len() - 1] {
-        let mut c2 = base.clone();
-        c2[p] ^= 1;
+    for (p, (what, c2)) in context_variants(&base, &[0, 1, base.len() - 1]).into_iter().enumerate() {
         let ctx2 = Context::new(&c2);
         let (_, d) = allow(&format!("ctx{}", p), &w.merchant, &honest_bytes, 7, &nonce, &ctx2, &mut rng);
-        let (r, m) = eng::satisfiable(&format!("C12 pay statement: context differing in byte {} gives a different challenge", p), "REFUTE", &eng::axioms(), &F::BlobEq(d0, d));
+        let (r, m) = eng::satisfiable(&format!("C12 pay statement: {} gives a different challenge", what), "REFUTE", &eng::axioms(), &F::BlobEq(d0, d));
         report_unbound("PayProof-statement", "context", r, m);
     }
     let n_key = n_config_atoms(&w.merchant, "key");
